@@ -1,5 +1,7 @@
 # coding: utf-8
 """C01 — assembly yields exactly the Golden Gate ligation product."""
+EXTRA_OBLIGATION_FILES = ("Props/C03_src.v", "Props/C04_src.v",)
+
 from harness import common, gens
 from harness.props import C02, C03
 
